@@ -54,6 +54,8 @@ func handleSet(params internal.HandlerFuncParams) ([]byte, error) {
 	if options.get {
 		if !keyExists {
 			res = []byte("$-1\r\n")
+		} else if !isScalar(params.GetValues(params.Context, []string{key})[key]) {
+			return nil, fmt.Errorf("value at key %s is not a string", key)
 		} else {
 			res = []byte(fmt.Sprintf("$%d\r\n%v\r\n", len(fmt.Sprint(params.GetValues(params.Context, []string{key})[key])), params.GetValues(params.Context, []string{key})[key]))
 		}
@@ -121,6 +123,9 @@ func handleGet(params internal.HandlerFuncParams) ([]byte, error) {
 	}
 
 	value := params.GetValues(params.Context, []string{key})[key]
+	if !isScalar(value) {
+		return nil, fmt.Errorf("value at key %s is not a string", key)
+	}
 
 	return []byte(fmt.Sprintf("$%d\r\n%v\r\n", len(fmt.Sprint(value)), value)), nil
 }
@@ -133,8 +138,9 @@ func handleMGet(params internal.HandlerFuncParams) ([]byte, error) {
 
 	values := make(map[string]string)
 	for key, value := range params.GetValues(params.Context, keys.ReadKeys) {
-		if value == nil {
+		if value == nil || !isScalar(value) {
 			// Missing keys are simply absent from the map (an empty string is a value, not a miss).
+			// A key that holds another type reads as nil as well.
 			continue
 		}
 		values[key] = fmt.Sprintf("%v", value)
@@ -710,6 +716,9 @@ func handleGetdel(params internal.HandlerFuncParams) ([]byte, error) {
 	}
 
 	value := params.GetValues(params.Context, []string{key})[key]
+	if !isScalar(value) {
+		return nil, fmt.Errorf("value at key %s is not a string", key)
+	}
 	delkey := keys.WriteKeys[0]
 	err = params.DeleteKey(params.Context, delkey)
 	if err != nil {
@@ -733,6 +742,9 @@ func handleGetex(params internal.HandlerFuncParams) ([]byte, error) {
 	}
 
 	value := params.GetValues(params.Context, []string{key})[key]
+	if !isScalar(value) {
+		return nil, fmt.Errorf("value at key %s is not a string", key)
+	}
 
 	exkey := keys.WriteKeys[0]
 
